@@ -511,6 +511,12 @@ func VF_C08_f() {
 	s := &Status{libState: newLibStatus(uint16(n)), bps: bp.NewSnapshots(&vfCluster{size: uint16(n)}, nil, nil)}
 	s.init(cdb, 0) // real boot loader on the genesis-only chain
 	hi.s = s
+	// this node is producer `self` (self == n: an observer that produces nothing)
+	self := vf.Choice("self", n+1)
+	s.load() // the first Update would do it: adopts the boot loader's libStatus (in production every libStatus carries the node's id)
+	if self < n {
+		s.libState.bpid = vfBPIDs[self]
+	}
 	q := n
 	if rr == 1 && n > 3 {
 		q = 3 + vf.Choice("active", n-2)
@@ -533,9 +539,21 @@ func VF_C08_f() {
 	for id, pl := range s.libState.Prpsd {
 		before[id] = pl.Plib.BlockNo
 	}
+	// own highest block among ALL blocks applied so far, abandoned ones included (what BlockFactory.worker reads back
+	// through Status.lpbNo() after a restart to compute Confirms = blockNo - lpbNo)
+	lpb0 := uint64(0)
+	for i := 1; i <= k; i++ {
+		if self < n && hi.producer[i] == self {
+			lpb0 = uint64(i)
+		}
+	}
+	vf.Assert(uint64(s.libState.LpbNo) == lpb0, "C08.f.lpb")
 	hi.truncate(r)
 	vfRollbackUpdate(s, hi.chain[r]) // rollback path of Status.Update
 	vf.Reach("C08.f")
+	// a reorganisation never lowers the last-produced number: the producer's next Confirms must not re-cover a height
+	// it has already confirmed on the abandoned branch (the honest-Confirms premise of C08.c)
+	vf.Assert(uint64(s.libState.LpbNo) >= lpb0, "C08.f.lpb")
 	vf.Assert(s.bestBlock == hi.chain[r], "C08.f.best")
 	vf.Assert(s.libState.Lib.BlockNo == lib0, "C08.f.rollback-keeps-lib")
 	lowered := false
@@ -545,6 +563,7 @@ func VF_C08_f() {
 		}
 	}
 	prev := lib0
+	ownNew := false
 	for j := 1; j <= maxNew; j++ {
 		blk := hi.next()
 		s.Update(blk)
@@ -558,7 +577,15 @@ func VF_C08_f() {
 		if lib.BlockNo > prev {
 			prev = lib.BlockNo
 		}
+		// (once the node itself produces on the new branch, LpbNo is that block's number — legitimately lower)
+		if hi.producer[len(hi.chain)-1] == self {
+			ownNew = true
+		}
+		if !ownNew {
+			vf.Assert(uint64(s.libState.LpbNo) >= lpb0, "C08.f.lpb")
+		}
 	}
+	vf.Observe("lpb", uint64(s.libState.LpbNo))
 	vf.Observe("lib0", lib0)
 	vf.Observe("lib", s.libState.Lib.BlockNo)
 }
